@@ -739,8 +739,14 @@ fn payload_mutants(acc: &mut Acc) -> usize {
             let class = match mu.kind {
                 "delete-element" | "attr-remove" | "attr-missing-in-a-later-copy" | "duplicate-element" => "lossy",
                 "cdata" | "comment-split" | "numeric-char-ref" | "attr-quote-style" | "attr-reorder" => "meaning-preserving",
+                // not a document of the payload's type at all: a second root, text outside the root, a document cut short. Accepted
+                // = the backend is handed an input built from a part of what the client sent ("truncated, merged or defaulted")
+                "second-root" | "trailing-text" | "leading-text" | "truncate" => "ill-formed",
                 _ => continue,
             };
+            if mu.doc.is_empty() {
+                continue; // (no body at all is "no payload", a value of its own for the operations whose payload is optional)
+            }
             let id = || format!("payload/{}/{}", d.name(), mu.label);
             if !a.selected(&id) {
                 continue;
@@ -750,6 +756,10 @@ fn payload_mutants(acc: &mut Acc) -> usize {
             let (rec, verdict) = record(&mu.doc);
             match (class, rec) {
                 (_, None) => a.outcome(&format!("payload {}: refused", mu.kind)),
+                ("ill-formed", Some(r)) => {
+                    a.outcome(&format!("payload {}: ILL-FORMED DOCUMENT ACCEPTED", mu.kind));
+                    a.fail(&format!("C02/payload/ill-formed-document-accepted/{}/{}", mu.kind, d.name()), 0, id(), format!("{}: the payload {:?} is not a well-formed document of the payload's type; it was accepted ({verdict}) and the backend was handed an input", d.name(), String::from_utf8_lossy(&mu.doc).chars().take(600).collect::<String>()), json!({"recorded": r.chars().take(600).collect::<String>()}));
+                }
                 ("lossy", Some(r)) if r == original => {
                     // (an element whose deletion changes nothing was carrying a default the SDK writes out: only judged when
                     //  the same deletion on the only occurrence is refused or changes the input - i.e. for later copies)
